@@ -104,6 +104,3 @@ Definition c08_ok (nr0 : nreg) (k : ncase) : bool :=
   | NFresh c ops => forallb (λ o, snd (nstep c nr0 o)) ops
   end.
 
-(** registry literals *)
-Definition nreg_of (ds : list rawdef) : nreg :=
-  match nload ds with Ok nr => nr | Err _ => NReg empty_reg ∅ ∅ end.
